@@ -22,12 +22,14 @@ TagPositions == {"op0", "op1", "op2", "op3", "struct", "enumerator"}
 Conts == <<  <<>>,
              << [indent |-> <<"sp", "sp", "sp">>, k |-> "t"] >>,
              << [indent |-> <<"sp", "sp">>, k |-> "t"], [indent |-> <<"sp", "sp", "sp">>, k |-> "lt"], [indent |-> <<>>, k |-> "blank"], [indent |-> <<"sp", "sp">>, k |-> "tl"] >>  >>
-Inlines == {"none", "emptycolon", "text", "padded", "link"}
+\* "textlink": text, a blank, then a link, then more text - the blanks around the link belong to the message
+Inlines == {"none", "emptycolon", "text", "padded", "link", "textlink"}
 \* the inline link of the j-th tag of a comment names LinkTargets[((j - 1) % 3) + 1]: links of different tags of one comment
 \* have different targets (all three exist in module M), so a link bound to another tag's target is visible
 LinkTargets == <<"T", "S", "E">>
-TagSpecs == [t : {"param"}, id : {"p", "q", "zz"}, inline : Inlines, cont : 1..3]
-            \cup [t : {"returns"}, id : {"", "r", "p", "zz"}, inline : Inlines, cont : 1..3]
+\* (the name that fits nothing is long: the tag head is then longer than the continuation lines of its message)
+TagSpecs == [t : {"param"}, id : {"p", "q", "zzNameThatFitsNoParameterAtAll"}, inline : Inlines, cont : 1..3]
+            \cup [t : {"returns"}, id : {"", "r", "p", "zzNameThatFitsNoParameterAtAll"}, inline : Inlines, cont : 1..3]
             \cup [t : {"see"}, id : {"T", "Nope"}, inline : {"none"}, cont : {1}]
 ParamsOf(pos) == CASE pos = "op0" -> {"p", "q"} [] pos \in {"op1", "op2", "op3"} -> {"p"} [] OTHER -> {}
 Fits(tag, pos) ==
@@ -37,7 +39,7 @@ Fits(tag, pos) ==
                               [] pos = "op2" -> tag.id \in {"", "r", "s"}
                               [] pos = "op3" -> tag.id \in {"", "p", "s"}
                               [] OTHER -> FALSE
-LinksIn(tag) == (IF tag.inline = "link" THEN 1 ELSE 0) + (IF tag.t # "see" /\ tag.cont = 3 THEN 2 ELSE 0)
+LinksIn(tag) == (IF tag.inline \in {"link", "textlink"} THEN 1 ELSE 0) + (IF tag.t # "see" /\ tag.cont = 3 THEN 2 ELSE 0)
 ExpTag(tag) == [id |-> tag.id, inline |-> tag.inline, cont |-> IF tag.t = "see" THEN <<>> ELSE RefMessage(Conts[tag.cont])]
 Sel(tags, t) == LET RECURSIVE Go(_)
                     Go(i) == IF i > Len(tags) THEN <<>> ELSE (IF tags[i].t = t THEN <<ExpTag(tags[i])>> ELSE <<>>) \o Go(i + 1)
